@@ -158,7 +158,7 @@ def _sym_spectrum_prep(n, pd=False):
 def _t_eigh(c):
     b = _batch(c, 1)
     n = c.int(1, 3)
-    uplo = c.choice([None, "L", "U"])
+    uplo = c.choice([None, "L", "U", "l", "u"])  # (NumPy upper-cases the letter)
     out = c.int(0, 2)  # 0 eigenvalues, 1 |v|^2 (gauge invariant), 2 reconstruction
     raw = c.chance(1, 4)  # eigh applied to the matrix itself: a function of one triangle only (as the repository's tests use it)
 
